@@ -163,7 +163,7 @@ def y_values(rnd, h, n=14):
 
 def run(ctx):
     fl = import_library()
-    nparam = ctx.scale(400, 6000)
+    nparam = ctx.scale(400, 20000)
     ctx.rule = (
         f"every tsukamoto call observed. Workload: Arc, Concave, Ramp, Sigmoid, SShape, ZShape x both directions x heights in (0,1] x {nparam} "
         "parameterisations x ~27 activation degrees y in (0,h): random, h/2 and its neighbours, next to 0 (1e-9h, 1e-12h, 1e-300) and next to "
